@@ -4,6 +4,7 @@ import PgBifrost.Proofs.LedgerSpecSound
 import PgBifrost.Proofs.SysExample
 import PgBifrost.Gen.Wiring
 import PgBifrost.Gen.Conds
+import PgBifrost.Proofs.LedgerSrc
 import PgBifrost.Proofs.SysClient
 /-!
 # C01 — no WAL position is acknowledged before its data is in the sink (property theorems)
@@ -312,6 +313,20 @@ theorem release_condition_as_in_source (e : PgBifrost.Ledger.Entry) :
     PgBifrost.Ledger.releasable e = PgBifrost.Gen.Conds.releasable e.commit e.count e.total := by
   simp only [PgBifrost.Ledger.releasable, PgBifrost.Gen.Conds.releasable]
   by_cases h1 : e.commit = 0 <;> by_cases h2 : e.count = e.total <;> simp [h1, h2]
+
+/-- **the ledger model is the ledger's source** (`ledger_as_in_source`). `Gen/LedgerSrc.lean` is
+`transport/progress/ledger.go` TRANSLATED statement by statement on every run (`updateSeen`, `updateWritten`,
+`remove`: map look-ups, deletes, the entry literal, assignments through the entry pointer, the error return);
+the hand-written model functions every ledger theorem above is about are EQUAL to the translation. A changed
+supersession rule, a dropped delete, a different initial count or a swapped field breaks this theorem (or falls
+outside the translator's subset, which is reported as a broken tie). Trusted here: that `ordered_map`'s
+`Get/Set/Delete` and Go's map operations are the model's list primitives, and that a `*LedgerEntry` taken from
+the map points into it (both also exercised by the `ledger` correspondence). -/
+theorem ledger_as_in_source :
+    (∀ s t k tot c, PgBifrost.Gen.LedgerSrc.updateSeen s t k tot c = PgBifrost.Ledger.updateSeen s t k tot c) ∧
+    (∀ s t k n, PgBifrost.Gen.LedgerSrc.updateWritten s t k n = some (PgBifrost.Ledger.updateWritten s t k n)) ∧
+    (∀ s k, PgBifrost.Gen.LedgerSrc.remove s k = some (PgBifrost.Ledger.remove s k)) :=
+  ⟨LedgerSrcProofs.updateSeen_eq, LedgerSrcProofs.updateWritten_eq, LedgerSrcProofs.remove_eq⟩
 
 end wiring
 
